@@ -8,7 +8,9 @@ open Lean Geff Geff.Proto Geff.Np Geff.Structure
   NODE = {"a": [dtypeName, [dims…]]} | {"g": [[name, NODE], …]}
   META = {"k": "noKey"|"notMapping"|"invalid"} | {"k":"ok", "node": [[name, dtype, varlen]…],
           "edge": […], "axes": null | [names…]}
-Answer: {"out": "ok"|"ValueError"|"FileNotFoundError"|<other exception name>} -/
+Answer: {"out": "ok"|"ValueError"|"FileNotFoundError"|<other exception name>   -- validate_structure
+         "reader": outcome of GeffReader(validate=True), "node"/"edge": the property names it offers,
+         "reader_nv": outcome of GeffReader(validate=False)} -/
 
 def parseDtype (j : Json) : Except String Dtype := do
   let s ← j.getStr?
@@ -64,8 +66,24 @@ def parseTarget (j : Json) : Except String Target := do
     Except String (Option Node))
   pure (.store root (← parseMeta (← t.getObjVal? "meta")))
 
+def nameOf {α : Type} : Out α → String
+  | .ok _ => "ok"
+  | .error .valueError => "ValueError"
+  | .error .fileNotFound => "FileNotFoundError"
+  | .error (.other n) => n
+
+def sortStrs (l : List String) : List String := (l.toArray.qsort (· < ·)).toList
+
 def handle (j : Json) : Except String Json := do
   let t ← parseTarget j
-  return Json.mkObj [("out", Json.str (outcomeName (validateStructure t)))]
+  let r := readerInit true t
+  let (nn, en) := match r with
+    | .ok p => p
+    | .error _ => ([], [])
+  return Json.mkObj [("out", Json.str (outcomeName (validateStructure t))),
+    ("reader", Json.str (nameOf r)),
+    ("node", Json.arr ((sortStrs nn).map Json.str).toArray),
+    ("edge", Json.arr ((sortStrs en).map Json.str).toArray),
+    ("reader_nv", Json.str (nameOf (readerInit false t)))]
 
 def main : IO Unit := Proto.run handle
